@@ -29,6 +29,8 @@ def main():
                         "usecompiled": case["usecompiled"]}
             if keep is None:
                 continue
+            if keep["type"] == "world" and (keep["opts"].get("post_mortem") or keep["label"] in ("post-mortem", "buffer+post-mortem")):
+                continue        # -D runs are decided by monitors of their own (no per-test windows in the trace)
             keep["from"] = sid
             keep["what"] = r.get("what", "")[:300]
             os.makedirs(os.path.join(VERIF, "corpus", prop), exist_ok=True)
